@@ -822,6 +822,35 @@ def r12(p, rep):
             for s_ in srcs[1:]:
                 count[s_] = count.get(s_, 0) + 1
         ok = len(firsts) == 1 and all(v == 2 for v in count.values()) and len(count) == 3
+        # a raw matmul result that is handed on under a label of its own (an intermediate of an n-ary contraction) is laid out
+        # as batch, left-only, right-only: its label lists the axes of exactly these three groups in this order
+        out_t = None
+        for t in triples:
+            others = [u for u in triples if u is not t]
+            # out = (batch, left-only, right-only): its second group is some operand's second group (the left one's) and its
+            # third group some operand's third group (the right one's); the contracted group sits at different positions
+            if any(u[1][1] == t[1][1] for u in others) and any(u[1][2] == t[1][2] for u in others):
+                out_t = t
+        if ok and out_t is not None:
+            out_vars = {a.targets[0].id for a in walk_no_nested(f.node) if isinstance(a, ast.Assign) and len(a.targets) == 1 and isinstance(a.targets[0], ast.Name) and any(x is out_t[0] for x in ast.walk(a.value))}
+            for c in walk_no_nested(f.node):
+                if isinstance(c, ast.Call) and norm(c.func).split(".")[-1] == "NamedTensor" and len(c.args) == 2 and isinstance(c.args[1], ast.Name) and c.args[1].id not in out_vars and c.args[1].id not in f.params:
+                    defs = [a.value for a in walk_no_nested(f.node) if isinstance(a, ast.Assign) and len(a.targets) == 1 and isinstance(a.targets[0], ast.Name) and a.targets[0].id == c.args[1].id]
+                    if len(defs) != 1 or not (isinstance(defs[0], ast.Call) and norm(defs[0].func).endswith("List.create") and len(defs[0].args) == 1):
+                        continue
+                    gens = [g for x in ast.walk(defs[0].args[0]) if isinstance(x, (ast.ListComp, ast.GeneratorExp)) for g in x.generators]
+                    if len(gens) != 1:
+                        continue
+                    parts, it = [], gens[0].iter
+                    while isinstance(it, ast.BinOp) and isinstance(it.op, ast.Add):
+                        parts.insert(0, it.right)
+                        it = it.left
+                    parts.insert(0, it)
+                    if not all(isinstance(x, ast.Name) for x in parts):
+                        continue
+                    got = [root(x.id) for x in parts]
+                    good = got == list(out_t[1])
+                    rep.add("C01.R12", f"{f.qualname}:label({c.args[1].id})", f"{m.rel}:{c.lineno}", good, f"`{c.args[1].id}` lists the axes as {got}: the layout of the matmul result" if good else f"`{norm(c)[:60]}` labels a raw matmul result with the axes of {got}, but the result is laid out as {list(out_t[1])} (batch, left-only, right-only): when an axis kept from the left operand precedes a batch axis the data is read as transposed by the next contraction - right shape, wrong values")
         rep.add("C01.R12", f"{f.qualname}:shared-groups", f"{m.rel}:{triples[0][0].lineno}", ok, f"batch group {sorted(firsts)} shared by all three; other groups {sorted(count)} each used twice" if ok else f"the three matmul expressions are built from {[t[1] for t in triples]}: the batch group differs between the operands (or a group is used by one expression only), so with two batch axes listed in different order in the two operands the flattened batch dimensions pair element (i, j) with (j, i)")
     return n
 
